@@ -117,11 +117,21 @@ def check_vector(v):
                     ec = count_kmers(seqs, k)
                     d_ = {str(kk): int(vv) for kk, vv in ec.as_dict().items() if int(vv)}
                     by_label = {lab(km): int(ec[lab(km)]) for km in expc}
-                    return d_, by_label
+                    labs = [lab(km) for km in expc]
+                    from bionumpy.sequence.count_encoded import EncodedCounts
+                    twice = ec + ec
+                    stacked = EncodedCounts.vstack([ec, twice])
+                    more = {"some": int(ec.get_count_for_label(labs[:2])), "all": int(ec.get_count_for_label(labs)),
+                            "twice": {l_: int(twice[l_]) for l_ in labs}, "stacked": {l_: [int(x) for x in np.asarray(stacked[l_]).tolist()] for l_ in labs},
+                            "untouched": {l_: int(ec[l_]) for l_ in labs}}
+                    return d_, by_label, more
                 o = outcome(readout)
                 n += 1
                 wl = {lab(km): c for km, c in expc.items()}
-                if o != ("ok", (wl, wl)):
+                wlabs = list(wl)
+                wmore = {"some": sum(wl[l_] for l_ in wlabs[:2]), "all": sum(wl.values()), "twice": {l_: 2 * c for l_, c in wl.items()},
+                         "stacked": {l_: [c, 2 * c] for l_, c in wl.items()}, "untouched": wl}
+                if o != ("ok", (wl, wl, wmore)):
                     bad.append({"what": "k-mer counts read out by label / as a dictionary differ from the counts", "tags": dict(tags, op="count_kmers-readout"),
                                 "vector": v, "case": {"texts": texts, "k": k}, "expected": str(wl), "observed": str(o)[:300]})
                 if not view and len(rows) >= 2 and all(len(r) >= k for r in rows):
